@@ -271,21 +271,21 @@ class Controller(object):
                 
                 # Evaluate objective at this new point
                 x = self.model.as_absolute_coordinates(xpts_added[k, :])
-                eval_obj_results.append(self.evaluate_objective(x, number_of_samples, params))
+                eval_obj_results.append(self.evaluate_objective(x, number_of_samples, params) + (self.nx,))  # keep the point number with its result
             
             # Evaluations done, now add to the model
             for k in range(1, num_directions + 1):
                 x = self.model.as_absolute_coordinates(xpts_added[k, :])
-                rvec_list, obj_list, num_samples_run, exit_info = eval_obj_results[k-1]
+                rvec_list, obj_list, num_samples_run, exit_info, eval_num = eval_obj_results[k-1]
                 # Handle exit conditions (f < min obj value or maxfun reached)
                 if exit_info is not None:
                     if num_samples_run > 0:
-                        self.model.save_point(x, np.mean(rvec_list[:num_samples_run, :], axis=0), num_samples_run, self.nx,
+                        self.model.save_point(x, np.mean(rvec_list[:num_samples_run, :], axis=0), num_samples_run, eval_num,
                                               x_in_abs_coords=True)
                     return exit_info  # return & quit
 
                 # Otherwise, add new results (increments model.npt_so_far)
-                self.model.change_point(k, x - self.model.xbase, rvec_list[0, :], self.nx)  # expect step, not absolute x
+                self.model.change_point(k, x - self.model.xbase, rvec_list[0, :], eval_num)  # expect step, not absolute x
                 for i in range(1, num_samples_run):
                     self.model.add_new_sample(k, rvec_extra=rvec_list[i, :])
         else:
@@ -377,22 +377,22 @@ class Controller(object):
 
                 # Evaluate objective
                 x = self.model.as_absolute_coordinates(new_point)
-                eval_obj_results.append(self.evaluate_objective(x, number_of_samples, params))
+                eval_obj_results.append(self.evaluate_objective(x, number_of_samples, params) + (self.nx,))  # keep the point number with its result
 
             for ndirns in range(num_directions):
                 new_point = xopt + dirns[ndirns, :]  # alway base move around best value so far
                 x = self.model.as_absolute_coordinates(new_point)
-                rvec_list, obj_list, num_samples_run, exit_info = eval_obj_results[ndirns]
+                rvec_list, obj_list, num_samples_run, exit_info, eval_num = eval_obj_results[ndirns]
                 # Handle exit conditions (f < min obj value or maxfun reached)
                 if exit_info is not None:
                     if num_samples_run > 0:
-                        self.model.save_point(x, np.mean(rvec_list[:num_samples_run, :], axis=0), num_samples_run, self.nx,
+                        self.model.save_point(x, np.mean(rvec_list[:num_samples_run, :], axis=0), num_samples_run, eval_num,
                                               x_in_abs_coords=True)
                     return exit_info  # return & quit
 
                 # Otherwise, add new results (increments model.npt_so_far)
                 self.model.change_point(1 + ndirns, x - self.model.xbase,
-                                        rvec_list[0, :], self.nx)  # expect step, not absolute x
+                                        rvec_list[0, :], eval_num)  # expect step, not absolute x
                 for i in range(1, num_samples_run):
                     self.model.add_new_sample(1 + ndirns, rvec_extra=rvec_list[i, :])
         else:
